@@ -17,6 +17,12 @@ func c09Layout(text string, layout int) string {
 		return strings.ReplaceAll(text, " ", "\n")
 	case 3:
 		return strings.ReplaceAll(text, " ", " # note\n ")
+	case 4:
+		return strings.ReplaceAll(text, " ", "\t")
+	case 5:
+		return strings.ReplaceAll(text, " ", "\r\n") // an expression file written on Windows
+	case 6:
+		return strings.ReplaceAll(text, " ", " \t\n")
 	}
 	return text
 }
@@ -43,7 +49,7 @@ func VerifC09Generated() {
 	c01GenCreates = false
 	c01GenBudget = verifParam("size", 1)
 	g := c01GenT()
-	layout := verifChoice("layout", verifParam("layouts", 4))
+	layout := verifChoice("layout", verifParam("layouts", 7))
 	if g.t == g.m && layout == 0 {
 		return // nothing to compare: the program has no removable parentheses and the layout is unchanged
 	}
@@ -53,7 +59,7 @@ func VerifC09Generated() {
 	xs := [4]string{verifStrN("x0", 1, "03"), verifStrN("x1", 1, "03"), verifStrN("b", 1, "03"), verifStrN("mk", 1, "03")}
 	want, parsedT, okT := c09EvalText(g.t, xs)
 	got, parsedM, okM := c09EvalText(text, xs)
-	label := []string{"minimal-parentheses", "extra-blanks", "newlines", "comments"}[layout]
+	label := []string{"minimal-parentheses", "extra-blanks", "newlines", "comments", "tabs", "carriage-return-line-feed", "blank-tab-newline"}[layout]
 	verifAssert(parsedT, "C09/explicitly-parenthesised-form-rejected")
 	verifAssert(parsedM == parsedT, "C09/generated-form-rejected "+label)
 	if !parsedT || !parsedM {
